@@ -105,7 +105,7 @@ Example ex_interrupt_once :
 Proof. repeat split; vm_compute; reflexivity. Qed.
 
 (* ---- non-vacuity ---- *)
-Example ex_program : option_map (@List.length obj) (run ops [] (program ops 20260930 8 40)) = Some 34%nat.
+Example ex_program : option_map (@List.length obj) (run ops [] (program ops 20260930 8 40)) = Some 32%nat.
 Proof. vm_compute. reflexivity. Qed.
 (* destroying twice, using after destruction and destroying the base of a live prepared geometry are illegal *)
 Definition find_op (n : string) : nat :=
